@@ -1,117 +1,99 @@
 /-
 C15 - allocation failure yields an error: never a crash, leak or wrong code.
 
-Model: Model/Fault.lean (the allocating operations of CodeHolder, embed_label_delta's expression branch, grow_buffer,
-ArenaVector append/reserve, String append - every allocation request decided by a universally quantified oracle).
-Spec: Spec/Fault.lean (`specStep`: the failure-free meaning on the observable state; `runGood`: monitor of workload runs).
+Model: Model/Fault.lean (the allocating operations of CodeHolder, embed_label_delta's expression branch, grow_buffer / embed
+with the section BYTES, ArenaVector append/reserve, String append - every allocation request decided by a universally
+quantified oracle).  Spec: Spec/Fault.lean (`specStep`: the failure-free meaning on the observable state incl. the bytes;
+`runGood`: monitor of workload runs).  Helper lemmas: Lemmas/Fault*.lean.
 
-Proved here, for EVERY oracle `o` (every pattern of failing requests), every state and every argument:
-* `fail_atomic`            an out-of-memory answer leaves the observable state exactly as it was (all operations but addAddr)
-* `addAddr_fail_partial`   add_address_to_address_table: unchanged, or only the (empty) address table section was created
-* `ensureAddrTab_view`     what `ensure_address_table_section()` can leave behind
-* `reserve_gives_room`, `reserve_ok_has_room`   the capacity obtained by `reserve_additional(n)` - under any oracle - holds the
-                           `n` items appended unchecked afterwards (the reserve-then-append discipline)
-* `reserve_fail_keeps`     a failed reservation keeps the capacity and consumed exactly one injected failure
-* `no_fault_no_oom_partial` without an injected failure new_label_id / vector append never answer out of memory
-
-FULL-STRENGTH statements NOT proved yet (they are judged on every run by the monitor instead: `Driver/C15 m` replays the real
-code's answers against `specStep`, and the model is compared with the real code line by line):
-  `answer_refines_spec : step op o s = (o', s', e) → e ≠ .oom → (s'.v, e) = specStep op s.v`  (every answer other than
-  out-of-memory is exactly the failure-free effect, under any oracle),
-  `runRetry_eq_specRun : (runRetry ops o s).1.v = (specRun ops s.v).1 ∧ (runRetry ops o s).2 = (specRun ops s.v).2` (repeating
-  failed calls converges to the failure-free history, for every history and oracle; an instance is checked by `decide` below),
-  `never_corrupt : (run ops o St.init).1.corrupt = false` (the driver prints CORRUPT if the model ever sets the flag).
+Proved here, for EVERY oracle `o` (every pattern of failing requests), every state, every argument, every history:
+* `fail_atomic`, `fail_atomic_exact`  an out-of-memory answer leaves the observable state exactly as it was; the only
+                            exception is add_address_to_address_table, which may have created exactly the empty `.addrtab`
+                            section (stated exactly: `withAddrTab`)
+* `answer_refines_spec`     every answer other than out-of-memory is exactly the failure-free effect and answer
+* `oom_consumes_fault`, `no_fault_no_oom`   failures are only consumed; an out-of-memory answer consumed one; without a pending
+                            failure no operation answers out of memory
+* `retry_converges`, `runRetry_eq_specRun`  repeating each failed call until it is answered otherwise ends - for every
+                            history and every oracle - in exactly the failure-free history: same answers, same final
+                            observable state (sections with their bytes, labels, relocations, address table, vector, string)
+* `never_corrupt`           after every prefix of every history under every oracle the component invariant holds: every
+                            capacity covers its size, every section buffer has room for its bytes, and no `append_unchecked`
+                            / buffer write ever ran without room (histories of total weight < 2^40, far beyond memory)
+* `reserve_gives_room`, `reserve_ok_has_room`, `reserve_fail_keeps`   the reserve-then-append discipline of one reservation
 -/
-import AsmjitVerif.Lemmas.Fault
+import AsmjitVerif.Lemmas.FaultInv
 namespace AsmjitVerif.Fault
 open AsmjitVerif
 
-/-- the operations whose failure is atomic -/
-def Op.atomic : Op → Bool
-  | .addAddr _ => false
-  | _ => true
-
-/-- `fail_atomic`: for every fault pattern, an operation answered `kOutOfMemory` has not changed anything a client can observe -/
+/-- `fail_atomic`: for every fault pattern, an operation answered `kOutOfMemory` has not changed anything a client can observe
+(all operations except `add_address_to_address_table`, see `fail_atomic_exact`) -/
 theorem fail_atomic (op : Op) (o o' : Oracle) (s s' : St) (hop : op.atomic = true)
-    (h : step op o s = (o', s', .oom)) : s'.v = s.v := by
-  cases op <;> simp only [step] at h
-  case newSection n a r => exact newSection_oom _ _ _ _ _ _ _ h
-  case newLabel => exact newLabel_oom _ _ _ _ h
-  case newNamed n t p => exact newNamed_oom _ _ _ _ _ _ _ h
-  case newReloc t => exact newReloc_oom _ _ _ _ _ h
-  case exprReloc => exact exprReloc_oom _ _ _ _ h
-  case newFixup => exact newFixup_oom _ _ _ _ h
-  case freeFixup => exact freeFixup_oom _ _ _ _ h
-  case addAddr a => simp [Op.atomic] at hop
-  case emit a b => exact emit_oom _ _ _ _ _ _ h
-  case vappend x => exact vappend_oom _ _ _ _ _ h
-  case vreserve n => exact vreserve_oom _ _ _ _ _ h
-  case sappend n c => exact sappend_oom _ _ _ _ _ _ h
+    (h : step op o s = (o', s', .oom)) : s'.v = s.v :=
+  step_oom_atomic op o o' s s' hop h
 
-/-- the view after `ensure_address_table_section()` succeeded -/
-def withAddrTab (v : View) : View :=
-  { commitSection v [46, 97, 100, 100, 114, 116, 97, 98] 8 2147483647 with addrTab := some v.sections.length }
+/-- `fail_atomic_exact`: EVERY operation answered `kOutOfMemory` left the observable state as it was, except that a failed
+`add_address_to_address_table(a)` (for a new address, when no address table existed) may have created exactly the empty
+address table section: name `.addrtab`, alignment 8, order INT32_MAX, no bytes, virtual size 0, registered as the table -/
+theorem fail_atomic_exact (op : Op) (o o' : Oracle) (s s' : St) (h : step op o s = (o', s', .oom)) :
+    s'.v = s.v ∨ ∃ a, op = .addAddr a ∧ s.v.addrTab = none ∧ ¬ a ∈ s.v.addrs ∧ s'.v = withAddrTab s.v :=
+  step_oom_mid op s.v o o' s s' (Or.inl rfl) h
 
-/-- what `ensure_address_table_section()` leaves behind: nothing new, or exactly the new empty section -/
-theorem ensureAddrTab_view (o : Oracle) (s : St) :
-    (ensureAddrTab o s).2.1.v = s.v ∨ (s.v.addrTab = none ∧ (ensureAddrTab o s).2.1.v = withAddrTab s.v) := by
-  unfold ensureAddrTab
-  split
-  · left; rfl
-  · rename_i hat
-    generalize hns : newSection o s _ 8 2147483647 = r
+/-- `answer_refines_spec`: under any oracle, an answer other than out-of-memory is exactly the failure-free effect -/
+theorem answer_refines_spec (op : Op) (o o' : Oracle) (s s' : St) (e : Err) (h : step op o s = (o', s', e)) (he : e ≠ .oom) :
+    (s'.v, e) = specStep op s.v :=
+  step_ref op o o' s s' e h he
+
+/-- `oom_consumes_fault`: an operation only consumes pending failures, and an out-of-memory answer consumed at least one -/
+theorem oom_consumes_fault (op : Op) (o o' : Oracle) (s s' : St) (e : Err) (h : step op o s = (o', s', e)) :
+    faults o' ≤ faults o ∧ (e = .oom → faults o' < faults o) :=
+  step_faults op o o' s s' e h
+
+/-- `no_fault_no_oom`: when no failure is pending no operation answers out of memory -/
+theorem no_fault_no_oom (op : Op) (o o' : Oracle) (s s' : St) (e : Err) (hf : faults o = 0)
+    (h : step op o s = (o', s', e)) : e ≠ .oom := by
+  intro he
+  have := (step_faults op o o' s s' e h).2 he
+  omega
+
+/-- `retry_converges`: repeating a failed call (memory may fail again: the oracle goes on) until it is answered otherwise
+yields exactly the failure-free answer and effect -/
+theorem retry_converges (op : Op) (o o' : Oracle) (s s' : St) (e : Err) (h : retry o.length op o s = (o', s', e)) :
+    e ≠ .oom ∧ (s'.v, e) = specStep op s.v :=
+  retry_spec o.length op s.v o o' s s' e (Or.inl rfl) (faults_le_length o) h
+
+/-- `runRetry_eq_specRun`: for every history and every fault oracle, the retry protocol ends in the failure-free history: the
+same answers and the same final observable state (which contains the bytes of every section) -/
+theorem runRetry_eq_specRun : ∀ (ops : List Op) (o : Oracle) (s : St),
+    (runRetry ops o s).1.v = (specRun ops s.v).1 ∧ (runRetry ops o s).2 = (specRun ops s.v).2
+  | [], o, s => by simp [runRetry, specRun]
+  | op :: rest, o, s => by
+    unfold runRetry specRun
+    generalize hr : retry o.length op o s = r
     obtain ⟨o1, s1, e⟩ := r
-    unfold ensureTail
-    by_cases he : e = .ok
-    · subst he
-      right
-      refine ⟨hat, ?_⟩
-      have hv : s1.v = commitSection s.v [46, 97, 100, 100, 114, 116, 97, 98] 8 2147483647 := by
-        unfold newSection at hns
-        repeat' split at hns
-        all_goals (first | (cases hns; done) | (cases hns; rfl) | skip)
-      simp [withAddrTab, hv]
-    · left
-      simp only [he, if_false]
-      unfold newSection at hns
-      repeat' split at hns
-      all_goals (first | (cases hns; rfl) | (cases hns; simp at he) | skip)
+    have hc := retry_converges op o o1 s s1 e hr
+    have ih := runRetry_eq_specRun rest o1 s1
+    rw [← hc.2]
+    simp only
+    exact ⟨ih.1, by rw [ih.2]⟩
 
-/-- `addAddr_fail_partial`: a failed `add_address_to_address_table` either changed nothing or created only the address
-table section (no entry, virtual size 0) - and only when there was none before -/
-theorem addAddr_fail_partial (a : Nat) (o o' : Oracle) (s s' : St)
-    (h : addAddr o s a = (o', s', .oom)) : s'.v = s.v ∨ (s.v.addrTab = none ∧ s'.v = withAddrTab s.v) := by
-  unfold addAddr at h
-  split at h
-  · cases h
-  · have hv := ensureAddrTab_view o s
-    generalize ensureAddrTab o s = r at h hv
-    obtain ⟨o1, s1, oid⟩ := r
-    unfold addAddrTail at h
-    simp only at h hv
-    repeat' split at h
-    all_goals (first | (cases h; done) | (cases h; exact hv) | skip)
+/-- `never_corrupt`: after every prefix of every history, under every oracle, the component invariant holds - capacities
+cover sizes, every buffer has room for its bytes, the `corrupt` flag (an unchecked append / write without room) is never set -/
+theorem never_corrupt (ops pre : List Op) (o : Oracle) (hpre : pre <+: ops) (hw : 1 + totalWeight ops ≤ 2 ^ 40) :
+    Inv (run pre o St.init).1 ∧ (run pre o St.init).1.corrupt = false := by
+  obtain ⟨t, rfl⟩ := hpre
+  have hI := run_inv pre o St.init 1 init_inv.1 init_inv.2 (by rw [totalWeight_append] at hw; omega)
+  exact ⟨hI, hI.1.1⟩
 
-end AsmjitVerif.Fault
-
-namespace AsmjitVerif.Fault
-open AsmjitVerif
-
-/-- `reserve_gives_room`: the capacity `reserve_additional(n)` obtains holds `size + n` items, so the `append_unchecked`
-calls that follow it (the reserve-then-append discipline of codeholder.cpp / builder.cpp) stay inside the allocation -/
+/-- `reserve_gives_room`: the capacity `reserve_additional(n)` obtains holds `size + n` items -/
 theorem reserve_gives_room (size n item : Nat) (hi : 0 < item) (hn : 0 < n)
     (hb : (size + n) * item + Vector.kGrowThreshold < Arena.u64) : size + n ≤ growCap size n item :=
   growCap_ge size n item hi hn hb
 
-/-- `reserve_ok_has_room`: whenever `reserveAdd` reports success, under ANY oracle, the capacity it returns has room for the
-`n` items (either it already had, or it was grown) -/
+/-- `reserve_ok_has_room`: whenever `reserveAdd` reports success, under ANY oracle, the capacity it returns has room -/
 theorem reserve_ok_has_room (o o1 : Oracle) (size cap n item c : Nat) (hi : 0 < item) (hn : 0 < n) (hsc : size ≤ cap)
     (hb : (size + n) * item + Vector.kGrowThreshold < Arena.u64)
-    (h : reserveAdd o size cap n item = (o1, c, true)) : size + n ≤ c := by
-  rcases reserveAdd_cases o size cap n item with ⟨h1, hlt⟩ | ⟨o2, _, h1, _⟩ | ⟨o2, _, h1, _⟩
-  · rw [h1] at h; cases h; omega
-  · rw [h1] at h; cases h
-  · rw [h1] at h; cases h; exact growCap_ge size n item hi hn hb
+    (h : reserveAdd o size cap n item = (o1, c, true)) : size + n ≤ c :=
+  reserve_room o o1 size cap n item c h hi hn hsc hb
 
 /-- `reserve_fail_keeps`: a failed reservation keeps the old capacity and consumed exactly one injected failure -/
 theorem reserve_fail_keeps (o o1 : Oracle) (size cap n item c : Nat)
@@ -120,31 +102,6 @@ theorem reserve_fail_keeps (o o1 : Oracle) (size cap n item c : Nat)
   · rw [h1] at h; cases h
   · rw [h1] at h; cases h; exact ⟨rfl, req_true_faults _ _ hr⟩
   · rw [h1] at h; cases h
-
-theorem reserveAdd_nil (size cap n item : Nat) :
-    (reserveAdd [] size cap n item).2.2 = true ∧ (reserveAdd [] size cap n item).1 = [] := by
-  unfold reserveAdd; split <;> simp [req]
-
-/-- `no_fault_no_oom_partial`: with no failure injected (`o = []`) `new_label_id` and `ArenaVector::append` never answer
-out of memory - an out-of-memory answer is always caused by a failed request.  (Full statement: for every operation;
-proved here for these two, monitored for the rest: `runGood` demands `fired > 0` for every reported error.) -/
-theorem no_fault_no_oom_partial (s : St) : (newLabel [] s).2.2 ≠ .oom ∧ ∀ x, (vappend [] s x).2.2 ≠ .oom := by
-  constructor
-  · unfold newLabel
-    have := reserveAdd_nil s.v.labels.length s.c.labCap 1 16
-    generalize reserveAdd [] s.v.labels.length s.c.labCap 1 16 = r at this ⊢
-    obtain ⟨o1, c1, b⟩ := r
-    simp only at this
-    obtain ⟨rfl, rfl⟩ := this
-    simp
-  · intro x
-    unfold vappend
-    have := reserveAdd_nil s.v.vec.length s.c.vecCap 1 4
-    generalize reserveAdd [] s.v.vec.length s.c.vecCap 1 4 = r at this ⊢
-    obtain ⟨o1, c1, b⟩ := r
-    simp only at this
-    obtain ⟨rfl, rfl⟩ := this
-    simp
 
 -- non-vacuity: concrete fault patterns on the initial state
 /-- the only request of this `new_section` (the Section object; both vectors still have room) fails -/
